@@ -13,6 +13,7 @@ EXPLANATION = ("pairing/ordering rules over the lease store: the lease write and
                "but the connection")
 ASSUMPTIONS = ["not decided: crash atomicity and durability themselves (SQLite's contract, trusted)",
                "not decided: equivalence of replies across a restart (follows from C01.R1/R5: the rows are the only state)"]
+EXPLANATION += '; also: legacy table probed and created without IF NOT EXISTS; the recorded row is the acknowledged lease; a migrated column is read as Option (by position or by name); transactions end by explicit commit; a transaction opened in SQL text is closed on every exit'
 EXTRA_CONFIGS = ["dhcp"]
 
 WRITE_KINDS = ("insert", "update", "delete", "drop", "alter", "create")
